@@ -11,27 +11,18 @@ def src_of(case):
     return case.get("src", "")
 
 
-# F24: `arguments` of a non-arrow function referenced from an arrow function nested in it
-F24_RE = re.compile(r"=>\s*(?:\{[^{}]*\barguments\b|[^;{}]*\barguments\b)")
+# C01-N26 (C08-N7): a loop whose body is a labelled block containing try/finally, the finally block containing both a
+# `continue` of the loop and a `break` to the label
+N26_RE = re.compile(r"\b(?:do|while|for)\b.*\b(\w+)\s*:\s*\{.*\bfinally\s*\{[^}]*\bcontinue\b[^}]*\bbreak\s+\1\b", re.S)
+N26_RE2 = re.compile(r"\b(?:do|while|for)\b.*\b(\w+)\s*:\s*\{.*\bfinally\s*\{[^}]*\bbreak\s+\1\b[^}]*\bcontinue\b", re.S)
 
 
-def pred_f24(case, record, expected_text):
+def pred_n26(case, record, expected_text):
     obs = record.get("obs", "")
     m = re.match(r"crash=(\d+)", obs)
     crash = int(m.group(1)) if m else 0
-    return crash == 1 and "runtime.boundsError" in obs and "index out of range" in obs and bool(F24_RE.search(src_of(case)))
-
-
-# F25: return() into a generator that is suspended at a yield inside a finally block
-# (return() is either called explicitly or by the iterator-close of a for-of that is left by break)
-F25_RE = re.compile(r"function\s*\*.*finally\s*\{[^}]*\byield\b.*(?:\.return\s*\(|\bof\b[^;{}]*\)\s*\{?\s*break\b)", re.S)
-
-
-def pred_f25(case, record, expected_text):
-    obs = record.get("obs", "")
-    m = re.match(r"crash=(\d+)", obs)
-    crash = int(m.group(1)) if m else 0
-    return crash == 16 and "idle:" in obs and bool(F25_RE.search(src_of(case)))
+    src = src_of(case)
+    return crash == 1 and "nil pointer dereference" in obs and bool(N26_RE.search(src) or N26_RE2.search(src))
 
 
 def candidates(case):
@@ -152,8 +143,7 @@ CFG = {
         "builtins, the parser and the lexer are covered only by the crash search, not by proof",
         "an instruction kind missing from the table makes the verifier skip the body (reported as coverage gap)",
     ],
-    "predicates": {"C01.arguments_captured_by_arrow_stays_on_stack": pred_f24,
-                   "C01.generator_return_while_suspended_in_finally_that_throws": pred_f25},
+    "predicates": {"C01.continue_in_finally_of_labelled_block_inside_loop": pred_n26},
     "manifest": {
         "text": ("translation validation, partial: a bytecode verifier (work-list abstract interpretation of operand-stack height, stack "
                  "locals, variadic markers and the try stack) is proved sound in Rocq against a small-step model of the VM's stack "
